@@ -5,7 +5,7 @@ from __future__ import annotations
 import typing
 
 from .. import scen, vrt
-from ..chx.api import P, harness, ladder, pick, shard
+from ..chx.api import P, concrete, harness, ladder, pick, shard
 from ..vnet.core import FakeSSLContext, Net, Peer, Sock
 from ..vnet.servers import AutoOrigin, ProxyServer, SocksServer
 
@@ -111,7 +111,12 @@ def matrix(sc: int, port: int, sw: int, prefer_h2: bool, sni: bool, diff: int) -
     dv = ladder(diff, 0, 2)
     prefer = "h2" if prefer_h2 else "http/1.1"
     use_sni = bool(sni)
+    with concrete(scheme, pmode, http1, http2, dv, prefer, use_sni):
+        _matrix(is_async, proxy, scheme, pmode, http1, http2, dv, prefer, use_sni)
 
+
+def _matrix(is_async: bool, proxy: str, scheme: str, pmode: int, http1: bool, http2: bool, dv: int,
+            prefer: str, use_sni: bool) -> None:
     vrt.new_runtime(clock=50)
     world = World(proxy, prefer)
     kw: dict[str, typing.Any] = {"http1": http1, "http2": http2}
